@@ -1,14 +1,90 @@
 (** C04 — call-frame atomicity across EVM state and precompile side effects.
-    This file holds only the exported statements. *)
+    This file holds only the exported statements (model: Model.v = x/evm/statedb of /repo HEAD:
+    journal, dirty counts, state-object cache, evmTxCtx store + cacheCtx branch, OnRunStart's
+    snapshot + intermediate commit, bank sends mirrored by SyncStateDBWithAccount, final Commit). *)
 From Coq Require Import ZArith List Bool.
 Import ListNotations.
 Local Open Scope Z_scope.
 Require Import Nib.C04.Model Nib.C04.Spec Nib.C04.Proofs.
 
+(** FRAME ATOMICITY.  For every call limit [mx], every initial store [t0] and every well-formed
+    script [body] — any interleaving, at any nesting depth and of any length, of EVM writes
+    (balance incl. sub-unibi dust, nonce, code, storage, logs, refund, access list, create,
+    selfdestruct), reads, Snapshot/RevertToSnapshot frames and precompile invocations (succeeding,
+    failing after OnRunStart, or refused by the per-tx limit) whose bodies move unibi between
+    accounts by bank sends on the cache context — what StateDB.Commit writes (accounts, bank
+    balances, code, storage: [commit]) is exactly the final state of the copy-on-frame reference
+    ([r_final (rrun …)]: a reverted frame restores the joint EVM x bank state it started with and
+    nothing else), and so are the journaled tx data.  No bound on anything. *)
+Theorem C04_frame_atomicity :
+  forall (mx : Z) (t0 : store) (body : list prog),
+    wf_body mx body (r_init t0) = true ->
+    let s := run (PFrame body false) (init {| repaired := true; maxc := mx |} t0) in
+    let r := rrun mx (PFrame body false) (r_init t0) in
+    store_eq (commit s) (r_final r) /\ auxeq (aux s) (r_aux r).
+Proof. exact frame_atomicity. Qed.
+Print Assumptions C04_frame_atomicity.
+
+(** (P1) A reverted frame — whatever it contains, including whole precompile calls — leaves the
+    StateDB in a state that differs from the one before the frame only by harmless caching
+    ([le]: same journal, same tx store, same CURRENT store, same dirty counts up to 0/absent, same
+    objects up to cached committed slots). *)
+Theorem C04_reverted_frame_invisible :
+  forall (body : list prog) (s : sdb), WFJ s ->
+    le s (run (PFrame body true) s) /\ WFJ (run (PFrame body true) s).
+Proof. exact reverted_frame_invisible. Qed.
+Print Assumptions C04_reverted_frame_invisible.
+
+(** BALANCE VIEWS.  At every program point [s] reachable by a well-formed script (any depth),
+    inside the body of a precompile call made there that is not refused by the limit — after
+    OnRunStart and after each of its bank sends, hence at its return — for every account that has
+    not self-destructed: bank balance on the cache ctx = StateDB balance / 10^12. *)
+Theorem C04_balance_views_agree :
+  forall (mx : Z) (t0 : store) (s : sdb) (r : rstate) (sends : list (addr * addr * Z)) (fails : bool) (i : nat),
+    reach mx t0 s r -> wf mx (PPrecompile sends fails) r = true -> (mx <? calls s + 1) = false ->
+    let s' := run_sends (firstn i sends) (commit_cache (precompile_snapshot s)) in
+    forall a o, lookup s' a = Some o -> suicided o = false -> bank_bal (cur_store s') a = to_native (bal o).
+Proof. exact balance_views_agree. Qed.
+Print Assumptions C04_balance_views_agree.
+
+(** CALL LIMIT.  When the counter has reached the limit, one more precompile call is refused:
+    the state is (a refinement of) the state before the call, the counter still advances, and what
+    Commit would write is unchanged. *)
+Theorem C04_call_limit :
+  forall (mx : Z) (s : sdb) (r : rstate) (sends : list (addr * addr * Z)) (fails : bool),
+    Inv mx s r -> mx < calls s + 1 ->
+    le s (precompile_call s sends fails) /\
+    calls (precompile_call s sends fails) = calls s + 1 /\
+    store_eq (commit (precompile_call s sends fails)) (commit s).
+Proof. exact call_limit. Qed.
+Print Assumptions C04_call_limit.
+
+(** … and the counter counts every precompile call of the script, reverted or not, at any depth. *)
+Theorem C04_every_call_counts :
+  forall (p : prog) (s : sdb), calls (run p s) = calls s + Z.of_nat (ncalls p).
+Proof. exact run_counts_calls. Qed.
+Print Assumptions C04_every_call_counts.
+
+(** Every reachable program point satisfies the invariant used above (so C04_call_limit applies
+    at every point of every well-formed script). *)
+Theorem C04_reachable_invariant :
+  forall (mx : Z) (t0 : store) (s : sdb) (r : rstate), reach mx t0 s r -> Inv mx s r.
+Proof. exact reach_Inv. Qed.
+Print Assumptions C04_reachable_invariant.
+
 (** The boolean checker evaluated on implementation traces is sound for [P]. *)
 Theorem C04_checker_sound : forall mx t0 body o, Pb mx t0 body o = true -> P mx t0 body o.
 Proof. exact Pb_sound. Qed.
 Print Assumptions C04_checker_sound.
+
+(** Observables that agree with the model agree with the reference (well-formed scripts). *)
+Theorem C04_model_agreement_gives_reference :
+  forall mx t0 body o, wf_body mx body (r_init t0) = true ->
+    let s := run (PFrame body false) (init {| repaired := true; maxc := mx |} t0) in
+    let r := rrun mx (PFrame body false) (r_init t0) in
+    final_matches (commit s) (aux s) o = final_matches (r_final r) (r_aux r) o.
+Proof. exact model_agreement_gives_reference. Qed.
+Print Assumptions C04_model_agreement_gives_reference.
 
 (** The StateDB as it was before commit 72672e0 ([repaired := false]) violates frame atomicity:
     a lost SSTORE (F2), a supply mint (F2b), a stale cached object (F2c), a forgotten
